@@ -110,6 +110,39 @@ def run_sweep(i, j, red, tol, cap):
     return ('returned-ok' if not viols else 'returned-violation'), viols, indet, sim
 
 
+def run_two_function_solvers(red, tol):
+    """Solver 1 registers f, solver 2 registers ANOTHER function under the same name, then solver 1 is solved."""
+    case = {'label': 'two-function-solvers', 'reduction': red, 'tol': tol}
+    blk = Block([('x', 'f(y) + 1.'), ('y', '.25*x'), ('d', 'f(x) - y')], maxtime=3, tol=tol)
+    try:
+        s1 = EquationSolver(blk.text(), run_equation_reduction=red)
+        s1.AddFunction('f', USER_FUNCS['f'])
+        s2 = EquationSolver('p = f(q)\nq = .5*p + 1.\nMaxTime = 2', run_equation_reduction=red)
+        s2.AddFunction('f', lambda v: 0.25 * v + 4.0)
+        s2.SolveEquation()
+        s1.SolveEquation()
+    except Exception as e:
+        return 'raised:' + type(e).__name__, [], 0, False
+    viols, indet, sim = judge(blk, s1.TimeSeries, red, tol, case)
+    return ('returned-ok' if not viols else 'returned-violation'), viols, indet, sim
+
+
+def run_steady_then_solve(i, red, tol):
+    """The optional initial steady-state search runs in front of the solve; the periods must still meet the submitted tolerance."""
+    case = {'label': 'steady-then-solve', 'first': i, 'reduction': red, 'tol': tol}
+    blk = Block.from_json(SWEEP[i].as_json())
+    blk.tol = tol
+    try:
+        s = EquationSolver(blk.text(), run_equation_reduction=red)
+        s.ParameterSolveInitialSteadyState = True
+        s.ParameterInitialSteadyStateMaxTime = 80
+        s.SolveEquation()
+    except Exception as e:
+        return 'raised:' + type(e).__name__, [], 0, False
+    viols, indet, sim = judge(blk, s.TimeSeries, red, tol, case)
+    return ('returned-ok' if not viols else 'returned-violation'), viols, indet, sim
+
+
 def units(tier):
     b = BOUNDS[tier]
     out = [{'kind': 'sweep', 'tols': b['tolerances']}]
@@ -292,6 +325,19 @@ def run_unit(unit, tier):
                         res['indeterminate'] += indet
                         core.bump(res['outcomes'], 'sweep:' + outcome)
                         res['violations'].extend(viols[:2])
+        for red in (True, False):
+            for tol in list(unit['tols']) + ['1e-10']:
+                for label, fn in (('two-function-solvers', lambda: run_two_function_solvers(red, tol)),
+                                  ('steady-then-solve-0', lambda: run_steady_then_solve(0, red, tol)),
+                                  ('steady-then-solve-1', lambda: run_steady_then_solve(1, red, tol))):
+                    dig.add((label, red, tol))
+                    outcome, viols, indet, sim = fn()
+                    res['evaluations'] += 1
+                    if outcome.startswith('returned'):
+                        res['nontrivial'] += 1
+                    res['indeterminate'] += indet
+                    core.bump(res['outcomes'], label + ':' + outcome)
+                    res['violations'].extend(viols[:2])
         res['samples'] = [{'history': 'solve block A, then ParseString(block B with the same variable names) on the same solver and solve', 'B': SWEEP[1].text()}]
     else:
         label, blk = SPECIAL[unit['index']]
@@ -315,6 +361,10 @@ def run_unit(unit, tier):
 
 
 def replay(case):
+    if case.get('label') == 'two-function-solvers':
+        return run_two_function_solvers(case['reduction'], case['tol'])[1][:1]
+    if case.get('label') == 'steady-then-solve':
+        return run_steady_then_solve(case['first'], case['reduction'], case['tol'])[1][:1]
     if case.get('label') == 'sweep':
         return run_sweep(case['first'], case['second'], case['reduction'], case['tol'], case['cap'])[1][:1]
     blk = Block.from_json(case['block'])
